@@ -360,7 +360,7 @@ def gen_vault(con, sigcase, count, seed):
     cases = []
     for runs in shapes:
         total = sum(r for _, r in runs)
-        for pos in range(0, total + 1):
+        for pos in range(0, total + 3):
             for irep in (1, 2, 3):
                 for cached in ((), tuple(range(len(runs)))):
                     cases.append((runs, pos, irep, cached))
